@@ -738,13 +738,22 @@ func combinatorOps(c *core.Ctx) {
 					seqInit        bool
 				}
 				fresh := map[string]*flags{}
+				// a local that receives a copy of an existing sequence (the spilled value receiver of a helper method such
+				// as a debug `kind()`) is not a sequence the combinator creates
+				copies := map[string]bool{}
+				for _, st := range p.Events(ir.KStore) {
+					isOverlay := st.A[1].Op == "lit" && len(st.A[1].Args) > 0 && st.A[1].Args[0].Op == "base" // an existing value with fields updated since
+					if st.A[0].Op == "alloc" && (st.A[1].Op != "lit" || isOverlay) && !(st.A[1].Op == "const" && strings.HasPrefix(st.A[1].Aux, "zero")) {
+						copies[st.A[0].Key()] = true
+					}
+				}
 				for _, st := range p.Events(ir.KStore) {
 					a := st.A[0]
 					base := a
 					if a.Op == "faddr" {
 						base = a.Args[0]
 					}
-					if base.Op != "alloc" || !st.LocalStore {
+					if base.Op != "alloc" || !st.LocalStore || copies[base.Key()] || isParamSpill(base) {
 						continue
 					}
 					pt, isP := base.Typ.(*types.Pointer)
@@ -1414,6 +1423,23 @@ func insideSeqMethod(p *ir.Path, i int, fns ...*ssa.Function) bool {
 				}
 			}
 			d = st.Depth
+		}
+	}
+	return false
+}
+
+
+// isParamSpill: the alloc term is the frame slot a parameter (a value receiver) of its function is spilled into.
+func isParamSpill(t *ir.Term) bool {
+	al, ok := t.Src.(*ssa.Alloc)
+	if !ok || al.Referrers() == nil {
+		return false
+	}
+	for _, r := range *al.Referrers() {
+		if st, isSt := r.(*ssa.Store); isSt && st.Addr == ssa.Value(al) {
+			if _, isP := st.Val.(*ssa.Parameter); isP {
+				return true
+			}
 		}
 	}
 	return false
